@@ -5,6 +5,7 @@
                                  c(y) = f(x) xor mask[n]  with  x[perm[i]] = y[i] xor mask[i]   (Spec/Transform.v).
    Statements only; proofs are in Proofs/CanonWalk.v. *)
 From Coq Require Import List NArith Bool.
+From V Require Proofs.GrayAll Proofs.CanonAllN.
 From V Require Import Base.Res Model.Kernels Model.Canon Spec.Bfun Spec.Transform Proofs.CanonWalk.
 Import ListNotations.
 Open Scope N_scope.
@@ -56,3 +57,17 @@ Print Assumptions C05_n.
 Print Assumptions C05_already_canonical.
 Print Assumptions C05_already_canonical_p.
 Print Assumptions C05_already_canonical_n.
+
+(* ---- N canonization beyond the property bound: for every n <= 31 (the limit is the u32 certificate mask), by a
+        PROOF that the Gray-code flip sequence is a closed walk through all 2^(n+1) complementations (Proofs/GrayAll.v),
+        not by computation *)
+Theorem C05_n_general : forall n t, (n <= 31)%nat -> wf n t ->
+  exists c mask, n_canonization n t = Ok (c, mask) /\ wf n c /\ cert_ok n (val t) (val c) (identity n) mask.
+Proof. exact V.Proofs.CanonAllN.C05_n_general. Qed.
+Theorem C05_gray_flips_general : forall n, (1 <= n)%nat ->
+  let fl := generate_gray_flips n true in
+  flips_valid n fl = true /\ flips_closed n fl = true /\ fl <> [] /\
+  forall m, m < 2 ^ (N.of_nat n + 1) -> In m (masks_after n 0 fl).
+Proof. exact V.Proofs.GrayAll.gray_flips_general. Qed.
+Print Assumptions C05_n_general.
+Print Assumptions C05_gray_flips_general.
